@@ -46,8 +46,28 @@ type Link struct {
 	// more (the only writers are the two endpoints), so the environment may close the link
 	// without waiting for the watchdog.
 	waiting [2]bool
+	gone    [2]bool // the endpoint's calls have returned: it will not write any more
 	Quiet   chan struct{}
 	quietOn bool
+}
+
+// checkQuiet (mu held): nobody can make progress any more.
+func (l *Link) checkQuiet() {
+	if l.quietOn || len(l.buf[0]) != 0 || len(l.buf[1]) != 0 {
+		return
+	}
+	if (l.waiting[0] || l.gone[0]) && (l.waiting[1] || l.gone[1]) {
+		l.quietOn = true
+		close(l.Quiet)
+	}
+}
+
+// MarkGone tells the link that the endpoint of a side (0 client, 1 server) has returned.
+func (l *Link) MarkGone(side int) {
+	l.mu.Lock()
+	l.gone[side] = true
+	l.checkQuiet()
+	l.mu.Unlock()
 }
 
 func NewLink(f Filter) *Link {
@@ -112,10 +132,7 @@ func (e *end) Read(p []byte) (int, error) {
 			return 0, io.EOF
 		}
 		l.waiting[e.side] = true
-		if l.waiting[1-e.side] && len(l.buf[0]) == 0 && len(l.buf[1]) == 0 && !l.quietOn {
-			l.quietOn = true
-			close(l.Quiet)
-		}
+		l.checkQuiet()
 		l.cond.Wait()
 		l.waiting[e.side] = false
 	}
